@@ -571,8 +571,8 @@ fn bad_number_apply(target: &Option<Corrupt>, sec: u8, k: &mut usize, s: String)
 }
 
 // incl. names that merely look like syntax: a leading '*' (only a '*' in column 1 starts a comment), section keywords
-const COL_NAMES: [&str; 21] = ["x", "x1", "y.2", "COL.A", "7", "42", "OMMX_VAR_3", "OMMX_VAR_x", "z_", "Var[1,2]", "a-b", "OMMX_VAR_10", "w", "x10", "変数1", "naïve", "x°", "*Y", "RHS", "BOUNDS", "MARKER"];
-const ROW_NAMES: [&str; 17] = ["c1", "LIM.1", "17", "R2", "OMMX_CONSTR_5", "cap(3)", "r", "MYEQN", "row-3", "0", "OMMX_CONSTR_a", "lim2", "制約", "é1", "*r", "ENDATA", "ROWS"];
+const COL_NAMES: [&str; 23] = ["$S0003", "a$b", "x", "x1", "y.2", "COL.A", "7", "42", "OMMX_VAR_3", "OMMX_VAR_x", "z_", "Var[1,2]", "a-b", "OMMX_VAR_10", "w", "x10", "変数1", "naïve", "x°", "*Y", "RHS", "BOUNDS", "MARKER"];
+const ROW_NAMES: [&str; 19] = ["$R1", "#row", "c1", "LIM.1", "17", "R2", "OMMX_CONSTR_5", "cap(3)", "r", "MYEQN", "row-3", "0", "OMMX_CONSTR_a", "lim2", "制約", "é1", "*r", "ENDATA", "ROWS"];
 
 pub fn gen_model(rng: &mut Rng) -> MpsModel {
     // mostly small (the statement's <= 6 columns, <= 5 rows); now and then the size of a small real model, with
